@@ -342,6 +342,32 @@ def r6(ctx, prog):
     ctx.floor(R, 4)
 
 
+def r7(ctx, prog):
+    R = ctx.rule("C11.R7", "the whole recorded region goes back: when the memid's base differs from the freed address (aligned-at-offset huge blocks keep an unused, merely "
+                           "decommitted front part), _mi_os_free_ex releases from the recorded base on every path, and never shortens the size it releases")
+    f = prog.fn("_mi_os_free_ex")
+    cfg = f.cfg
+    frees = list(f.calls(("mi_os_prim_free", "mi_os_free_huge_os_pages")))
+    bvars = {rl.var_of(f, rl.arg(f, c, 0)) for c in frees} - {None}
+    svars = {rl.var_of(f, rl.arg(f, c, 1)) for c in frees} - {None}
+    if not frees or len(bvars) != 1:
+        ctx.broke("C11.R7: release calls / base variable of _mi_os_free_ex not found")
+        return
+    bv = next(iter(bvars))
+    is_base_fld = lambda j: f.nodes[j]["k"] == "MemberExpr" and f.nodes[j]["fld"] == "base"
+    differs = lambda e, pol: isinstance(e, int) and rl.rel(f, e, pol, is_base_fld, rl.is_local(f, bv)) == "!="
+    hit = [q for p_, q, e, pol in rl.edges_with_fact(f, differs)]
+    setb = lambda e: f.nodes[e]["k"] == "BinaryOperator" and f.nodes[e]["op"] == "=" and rl.var_of(f, f.nodes[e]["c"][0]) == bv and f.mentions_field(f.nodes[e]["c"][1], "base")
+    ok = bool(hit)
+    w = None
+    for q in hit:
+        w = w or cfg.must_pass([q], [cfg.pt(c) for c in frees], setb)
+    ctx.check(R, ok and w is None, f.where(), "recorded base != addr: the release starts at memid.mem.os.base on every path (no platform or size condition in between)", key="C11.R7:base", witness=w)
+    shrink = [a for d_ in svars for a, kind, opnd in f.var_updates(d_) if kind == "sub"]
+    ctx.check(R, not shrink, f.where(shrink[0]) if shrink else f.where(), "the released size is never reduced", key="C11.R7:size")
+    ctx.floor(R, 2)
+
+
 def run(ctx):
     ctx.explanation = ("Static decision of the code-shaped necessary conditions of C11 on every CFG path of the release chain "
                        "(segment free -> arena free -> OS free -> munmap): writer/reader agreement on memid.mem.os.{base,size}, no dropped "
@@ -351,11 +377,11 @@ def run(ctx):
     for c in configs:
         prog = ctx.prog(c)
         if c == "REL":
-            r1(ctx, prog); r2(ctx, prog); r3(ctx, prog); r4(ctx, prog); r5(ctx, prog); r6(ctx, prog)
+            r1(ctx, prog); r2(ctx, prog); r3(ctx, prog); r4(ctx, prog); r5(ctx, prog); r6(ctx, prog); r7(ctx, prog)
         else:
             # cross-configuration: the same rules must hold in the hardened and debug programs
             n0 = len(ctx.instances)
-            r1(ctx, prog); r3(ctx, prog); r4(ctx, prog); r5(ctx, prog); r6(ctx, prog)
+            r1(ctx, prog); r3(ctx, prog); r4(ctx, prog); r5(ctx, prog); r6(ctx, prog); r7(ctx, prog)
             for i in ctx.instances[n0:]:
                 i["site"] += " [%s]" % c
                 if not i["ok"]:
